@@ -211,7 +211,8 @@ pub fn run(ctx: &Ctx) -> i32 {
                 let f = *f;
                 paths.push((format!("{:?}", f), Box::new(move || build::build(f, kv))));
             }
-            paths.push(("RawGeom(default)".into(), Box::new(move || build::build(Front::RawGeom(10_000, 2), kv))));
+            // (a hook-built builder with an explicit geometry is NOT one of the compared paths: the cache geometry is an
+            // input of the build, and the shipped default is whatever Builder::new uses)
             if case.set {
                 for f in SET_FRONTS.iter() {
                     let f = *f;
@@ -430,7 +431,7 @@ pub fn run(ctx: &Ctx) -> i32 {
         ev,
         Spec {
             level: "exploration",
-            rule: "one evaluation = one build of a key/value sequence through one API path compared byte-for-byte with the raw Builder::memory()+insert build of the same sequence; paths: 9 map front ends (raw memory/new/extend_iter/extend_stream/from_iter_map, MapBuilder insert/extend_iter/extend_stream, Map::from_iter), 5 set front ends where values are zero (raw add, SetBuilder insert/extend_iter/extend_stream, Set::from_iter), the hook-built default geometry, union of 2..5 partial FSTs streamed into a builder (three ways of splitting), set union -> SetBuilder::extend_stream, BufWriter/File/short-writing sinks, repeated builds; builders that refused duplicate/out-of-order calls in between vs a clean build of the accepted sequence; builds while 40 idle builders are alive; builds right after a build that failed with an I/O error on the same thread; a child process whose allocator refuses allocations >= 256 KiB (it may die, but if it builds the bytes must be the same); the 44 cross-process sequences (random maps + word lists, incl. tiny cache geometries where evictions occur) are additionally built in 16 concurrent threads and in 2 child processes and compared by 128-bit digest; non-trivial = every path; distinct = (sequence, path)",
+            rule: "one evaluation = one build of a key/value sequence through one API path compared byte-for-byte with the raw Builder::memory()+insert build of the same sequence; paths: 9 map front ends (raw memory/new/extend_iter/extend_stream/from_iter_map, MapBuilder insert/extend_iter/extend_stream, Map::from_iter), 5 set front ends where values are zero (raw add, SetBuilder insert/extend_iter/extend_stream, Set::from_iter), union of 2..5 partial FSTs streamed into a builder (three ways of splitting), set union -> SetBuilder::extend_stream, BufWriter/File/short-writing sinks, repeated builds; builders that refused duplicate/out-of-order calls in between vs a clean build of the accepted sequence; builds while 40 idle builders are alive; builds right after a build that failed with an I/O error on the same thread; a child process whose allocator refuses allocations >= 256 KiB (it may die, but if it builds the bytes must be the same); the 44 cross-process sequences (random maps + word lists, incl. tiny cache geometries where evictions occur) are additionally built in 16 concurrent threads and in 2 child processes and compared by 128-bit digest; non-trivial = every path; distinct = (sequence, path)",
             assumptions: vec!["different cache geometries may legitimately give different bytes; determinism is judged per geometry".into()],
             floors: vec![("paths-compared", 10_000), ("concurrent-thread-runs", 16), ("child-process-runs", 2), ("sequences-with-rejected-calls", 100), ("builds-after-a-failed-build-on-the-same-thread", 100)],
             exhaustive: Some(false),
